@@ -38,7 +38,7 @@ STATEFUL = [
     "A", "B", "center(v)", "scale(v)", "standardize(v)", "C(B, contr.sum)", "C(B, contr.poly)",
     # stateful transforms wrapped around multi-column (integer-keyed) bases, and a quoted name whose sanitised
     # form collides with another column
-    "center(bs(x, df=4))", "scale(cr(z, df=3))", "scale(poly(y, 2))", "center(`a b`)", "scale(`a b`):a_b",
+    "center(bs(x, df=4))", "scale(cr(z, df=3))", "scale(poly(y, 2))", "center(`a b`)", "scale(`a b`):a_b", "scale(`a b`)", "standardize(`a b`)",
 ]
 STATELESS = ["2.5", "0.5", "3", "log(w)", "np.exp(y)", "I(x * y)", "{x + 1}", "hashed(A, levels=3)", "x", "y", "z", "w", "np.log(w + 1)"]
 LEVELS = {"A": ["b", "a", "d", "c"], "B": ["y", "x", "z"], "G": [3, 1, 2]}
@@ -192,6 +192,21 @@ def check_case(case) -> Outcome:
             out.fail("pickled-spec-follow-up", f"{s!r} follow-up {h}", **feat)
         if not same(dense(model_matrix(mm_p, D), nc), RM, 1e-12):
             out.fail("pickled-model-matrix-follow-up", f"{s!r} follow-up {h}", **feat)
+    # (5) a subset of the spec (one term at a time, last term first) replays the recorded encoding of that term
+    if len(spec.formula) >= 2:
+        Dsub, RMsub = (results[0][1], results[0][2]) if results else (train, M0)
+        for term in reversed(list(spec.formula)):
+            idx = list(spec.term_indices[term])
+            try:
+                sub = spec.subset([term])
+                S = sub.get_model_matrix(Dsub, context={})
+            except Exception as e:
+                out.fail("subset-replay-raises", f"{s!r}: subset [{term}]: {type(e).__name__}: {str(e)[:160]}", **feat)
+                break
+            SM = dense(S, len(idx))
+            if list(S.model_spec.column_names) != [names[j] for j in idx] or not same(SM, RMsub[:, idx]):
+                out.fail("subset-replays-recorded-encoding", f"{s!r}: subset [{term}] gives {list(S.model_spec.column_names)} / differs from the full spec's columns {[names[j] for j in idx]} on the same frame", **feat, tf=str(term).split("(")[0][:20])
+                break
     # (3) re-apply to earlier frames, in reverse order: identical
     for h, D, RM in reversed(results):
         again = dense(spec.get_model_matrix(D, context={}), nc)
@@ -225,6 +240,9 @@ def gen():
             [["y"], ["x"], ["B"], ["y", "B"], ["x", "B"]],
             [["x", "B"], ["B"], ["x"]],
             [["scale(x)"], ["z"], ["scale(x)", "C(G)"], ["z", "C(G)"]],
+            # one quoted column inside several stateful transforms (each records its state under the sanitised alias)
+            [["center(`a b`)"], ["scale(`a b`)"]],
+            [["scale(`a b`)"], ["center(`a b`)"], ["np.log(`a b` + 10)"], ["standardize(`a b`)", "A"]],
         ]
     )
     return st.fixed_dictionaries(
